@@ -384,7 +384,40 @@ def run(facts, tier):
     from props import c14
     c14.c14_4(facts, res, "R13-11")
     r13_12(facts, res)
+    r13_13(facts, res)
     return res
+
+
+def r13_13(facts, res, rule="R13-13"):
+    """InuseAttributeErr: "the Attr is already an attribute of another Element".  Whether an Attr belongs to an element is
+    state of the Attr (its order key / parent id).  A test that instead *looks the owner up* goes through the id registry, whose
+    weak entries die when the owner element is detached from the tree (known finding R12-8): the attribute of a removed or
+    never-inserted element then passes as free and ends up in two attribute maps."""
+    st = res.rule(rule, instances=0)
+    reg = facts.fn("xml_info::Context::node")["id"]
+    for f in facts.fns.values():
+        if f["crate"] != "xml_dom" or "body" not in f or f.get("derived") or f.get("test"):
+            continue
+        for n in walk(f["body"]):
+            if n.get("k") != "If" or not any(str(m.get("path", "")).endswith("DomException::InuseAttributeErr") for m in walk(n["then"])):
+                continue
+            if any(x.get("k") == "If" and x is not n and any(str(m.get("path", "")).endswith("DomException::InuseAttributeErr") for m in walk(x["then"]))
+                   for x in walk(n["then"])):
+                continue        # an enclosing conditional; the inner one is the test
+            st["instances"] += 1
+            ids = [m.get("rid") or m.get("id") for m in walk(n["cond"]) if m.get("k") == "MethodCall"] + \
+                  [m["f"].get("rid") or m["f"].get("id") for m in walk(n["cond"]) if m.get("k") == "Call" and m["f"].get("k") == "Path"]
+            ids = [i for i in ids if i in facts.fns]
+            reach, _ = facts.reachable(ids)
+            bad = reg in reach or reg in ids
+            res.oblige(1, not bad)
+            if bad:
+                via = [facts.fns[i]["path"] for i in ids if reg in facts.reachable([i])[0]]
+                res.add(Finding(rule, "%s|in-use" % facts.root_of(f)["path"], "%s decides InuseAttributeErr through %s, which looks the owner up in the id "
+                                "registry (Context::node): the entry of a detached owner element is dead, so its attributes pass as free"
+                                % (f["path"], via[:2]), f["file"], n.get("ln"), {}))
+    if st["instances"] < 1:
+        raise BrokenCheck("%s: no test guards InuseAttributeErr in xml_dom (floor 1)" % rule)
 
 
 def r13_12(facts, res, rule="R13-12"):
